@@ -28,11 +28,11 @@ SCOPE = {
 }
 
 
-def release_like(prop, mod, chk):
+def release_like(prop, mod, chk, view="primary"):
     """run the property's rules on MIR built without debug assertions; any violation that the dev
     profile did not show is reported (a rule must not depend on debug-only MIR)"""
     try:
-        P2 = mir.Program.load(variant="nodebug")
+        P2 = mir.Program.load(variant="nodebug", view=view)
     except Exception as e:  # extraction problems are the check's problem, not the property's
         chk.anchor_missing("release-like facts unavailable: %s" % str(e)[-400:])
         return
@@ -195,7 +195,7 @@ def selftest(prop, chk):
              % (summary["mutants"], summary["as_expected"], len(summary["mismatch"]), len(summary["skipped"])))
 
 
-def run(prop, mod, chk):
-    release_like(prop, mod, chk)
+def run(prop, mod, chk, view="primary"):
+    release_like(prop, mod, chk, view)
     cross_check(prop, chk)
     selftest(prop, chk)
